@@ -2,6 +2,7 @@
 (* Direction code -> spec for C19: what parse_function did with every rendered string.                           *)
 (*  [id, kind |-> "syn", class, outcome ("accepted" | "rejected"), sidefx]                                        *)
 (*  [id, kind |-> "ev", deps, odeps, vals |-> << [v (rational or Err), ok, o, oa] >> ]   scalar o and array element oa *)
+(*  [id, kind |-> "scale", a, b]   a quotient of two names at an environment and at the same environment times 2^-k (exact in floats)   *)
 EXTENDS Rat, Big, TLC, Json, IOUtils, FiniteSets
 Trace == JsonDeserialize(IOEnv.TRACE_FILE)
 VARIABLES i, bad
@@ -13,7 +14,7 @@ SeqSet(s) == {s[k] : k \in 1..Len(s)}
 EvFailing(e) == (IF SeqSet(e.deps) = SeqSet(e.odeps) THEN {} ELSE {"Deps"})
            \cup (IF \E k \in 1..Len(e.vals) : e.vals[k].v # Err /\ (~e.vals[k].ok \/ ~RatClose(e.vals[k].v, e.vals[k].o, K1e9, 8)) THEN {"Value"} ELSE {})
            \cup (IF \E k \in 1..Len(e.vals) : e.vals[k].v # Err /\ e.vals[k].ok /\ e.vals[k].o # e.vals[k].oa THEN {"ArrayScalar"} ELSE {})
-Failing(e) == IF e.kind = "syn" THEN SynFailing(e) ELSE EvFailing(e)
+Failing(e) == IF e.kind = "syn" THEN SynFailing(e) ELSE IF e.kind = "scale" THEN (IF e.a = e.b THEN {} ELSE {"DivScaleFree"}) ELSE EvFailing(e)
 Init == i = 1 /\ bad = {}
 Next == /\ i <= Len(Trace)
         /\ bad' = IF Cardinality(bad) > 60 THEN bad ELSE bad \cup {<<Trace[i].id, c>> : c \in Failing(Trace[i])}
